@@ -286,8 +286,20 @@ def check_vmdk(rng):
     text2 = "\n".join(ln for ln in text.replace("\r\n", "\n").split("\n") if not ln.startswith(("parentCID", "parentFileNameHint"))) + '\nparentCID="ffffffff"\n'
     want2["attr"] = {k: v for k, v in want2["attr"].items() if k != "parentCID"}
     want2["attr"]["parentCID"] = "ffffffff"
+    # some descriptors fill their area to the last byte (no terminating NUL) and end in a character that matters (private generator:
+    # the main random stream stays as it was)
+    r2 = random.Random(repr(text2))
+    exact = r2.random() < 0.35
+    if exact:
+        last = "ddb.toolsVersion = 10346"
+        pad = (-(len(text2.encode()) + len(last))) % 512
+        if 0 < pad < 3:
+            pad += 512
+        text2 = text2 + (("# " + "x" * (pad - 3) + "\n") if pad else "") + last
+        want2 = dict(want2, ddb=dict(want2["ddb"], **{"ddb.toolsVersion": "10346"}))
     raw = text2.encode()
-    dsec = -(-len(raw) // 512) + rng.choice([0, 1, 3])
+    extra_sectors = rng.choice([0, 1, 3])
+    dsec = -(-len(raw) // 512) + (0 if exact else extra_sectors)
     doff = rng.choice([1, 2, 8])
     grain, ngte = 128, 512
     cap = grain * 4
